@@ -396,3 +396,59 @@ func H08Split() {
 		}
 	}
 }
+
+// H08Internal: the .config group is the *file* configuration. Three results carry the key
+// "a" as file configuration, as internal configuration (set by a tool, File == false) or not
+// at all, in every order of first appearance, plus a file key "b": two results agree on the
+// .config key exactly when their file configurations are equal, and the key never returns an
+// internal value.
+func H08Internal() {
+	var pp ProjectionParser
+	proj, err := pp.Parse(".config", nil)
+	if err != nil {
+		panic(err)
+	}
+	const n = 3
+	type row struct{ a, b string } // the file configuration
+	rows := make([]row, n)
+	keys := make([]Key, n)
+	for i := 0; i < n; i++ {
+		res := &benchfmt.Result{Name: benchfmt.Name("B"), Iters: 1, Values: []benchfmt.Value{{Value: 1, Unit: "u"}}}
+		v := "x"
+		kind := vndChoice("a-kind", 3)
+		if kind != 0 && vndBool("a-other-value") {
+			v = "y"
+		}
+		switch kind {
+		case 0:
+		case 1:
+			res.Config = append(res.Config, benchfmt.Config{Key: "a", Value: []byte(v), File: true})
+			rows[i].a = v
+		case 2:
+			res.Config = append(res.Config, benchfmt.Config{Key: "a", Value: []byte(v), File: false})
+		}
+		if vndBool("b") {
+			res.Config = append(res.Config, benchfmt.Config{Key: "b", Value: []byte("p"), File: true})
+			rows[i].b = "p"
+		}
+		keys[i] = proj.Project(res)
+	}
+	vndReach("h08:internal")
+	for i := 0; i < n; i++ {
+		got := row{}
+		for _, f := range proj.FlattenedFields() {
+			switch f.Name {
+			case "a":
+				got.a = keys[i].Get(f)
+			case "b":
+				got.b = keys[i].Get(f)
+			default:
+				vndAssert(false, "config-group-has-only-file-keys")
+			}
+		}
+		vndAssert(got == rows[i], "config-group-returns-the-file-configuration")
+		for j := 0; j < i; j++ {
+			vndAssert((keys[i] == keys[j]) == (rows[i] == rows[j]), "config-keys-equal-iff-file-configurations-equal")
+		}
+	}
+}
